@@ -72,6 +72,46 @@ func init() {
 	// pkg/types.SerializableDate/Time parse bytes with package time: when the argument is a
 	// symbolic document the contract stub for library text formats is used instead (null is
 	// a no-op, a string satisfying the format predicate decodes, anything else fails).
+	// schemas.TypeList.UnmarshalJSON peeks at the first byte to tell a list from a string; on a
+	// symbolic document the same decision is the node's kind.
+	overrides["(*"+RepoModule+"/pkg/schemas.TypeList).UnmarshalJSON"] = func(fr *frame, a []value) value {
+		ref, ok := a[1].(docRef)
+		if !ok {
+			return notHandled{}
+		}
+		x := fr.i.x
+		n := ref.n
+		cell := a[0].(*value)
+		switch {
+		case x.decide(n.kindIs(kArray)):
+			c := &decodeCtx{i: fr.i, fr: fr, tag: "json", errAcc: mkBool("false")}
+			ln := c.forkLen(n)
+			out := make([]value, ln)
+			for k := 0; k < ln; k++ {
+				el := n.child(fmt.Sprint(k))
+				x.assumeQuiet(symNot(el.kindIs(kAbsent)))
+				if !x.decide(el.kindIs(kString)) {
+					return fr.i.mkError("failed to unmarshal type list: json: cannot unmarshal non-string into Go value of type string")
+				}
+				out[k] = el.strv()
+			}
+			*cell = out
+			return iface{}
+		case x.decide(n.kindIs(kString)):
+			sv := n.strv()
+			if x.decide(symEq(sv, asTerm(""))) {
+				*cell = []value(nil)
+			} else {
+				*cell = []value{sv}
+			}
+			return iface{}
+		case x.decide(n.kindIs(kNull)):
+			// json.Unmarshal("null", &s) leaves s == "" -> *t = nil
+			*cell = []value(nil)
+			return iface{}
+		}
+		return fr.i.mkError("failed to unmarshal type list: json: cannot unmarshal value into Go value of type string")
+	}
 	for _, tn := range []string{"SerializableDate", "SerializableTime"} {
 		tn := tn
 		overrides["(*"+RepoModule+"/pkg/types."+tn+").UnmarshalJSON"] = func(fr *frame, a []value) value {
